@@ -43,7 +43,7 @@ class T4File:
     def provenance(self, vid):
         """Pairs parsed from the volume comment: '(3, 2); (3, 10)'."""
         c = self.vols[vid]['comment']
-        return [(int(a), int(b)) for a, b in re.findall(r'\((-?\d+), (-?\d+)\)', c)]
+        return [(int(a), int(b)) for a, b in re.findall(r'\(\s*(-?\d+)\s*,\s*(-?\d+)\s*\)', c)]
 
 
 def _num(tok, t4, what):
